@@ -66,6 +66,16 @@ CLAIMS = {
             "vs the library on all 326 duplicate-free orderings (exhaustive) and on substituted/foreign/repeated fields on every run.",
             "serde derive / HashMap lookup semantics assumed; char::is_numeric table extracted from the toolchain (proved irrelevant "
             "to parse results for non-ASCII entries)."),
+    "C05": ("Coq theorems (Props/C05.v) over an ABSTRACT cyclic group of prime order (the module laws are explicit premises): the "
+            "signature produced by the model of try_sign satisfies 0<r<n, 0<s<=n/2 and ECDSA verification (C05_valid), public-key "
+            "recovery from (digest, r, s, yParity) returns exactly d.G (C05_recover, premise x(R) < n), low-s normalisation flips the "
+            "parity bit (C05_parity_flip), signing is a function of (key, digest), and for digests below n equals textbook RFC 6979 "
+            "ECDSA after low-s normalisation (C05_rfc6979); a toy instance shows the premises are satisfiable. Model (instantiated with "
+            "the Gallina secp256k1 / HMAC-DRBG) vs PrivateKey::try_sign on every run, plus independent Python verify/recover/RFC 6979 "
+            "and k256's own recover_from_prehash on the implementation's outputs.",
+            "That secp256k1 (Prim/Secp256k1.v, k256) is a prime-order group obeying the stated laws is assumed (standard mathematics, "
+            "validated by vectors/differential runs only); HMAC-SHA256/RFC 6979 DRBG are executable re-implementations; the digest "
+            "enters the DRBG unreduced (dependency behaviour), hence RFC 6979 equality is claimed for digests < n only, as the property states."),
     "C07": ("Coq theorems (Props/C07.v: the code-shaped rlp::{len,bytes,uint,list} equal the Yellow-Paper encoder, the u8 header "
             "arithmetic never overflows, strict-decoder round trip dec(enc i ++ rest) = (i, rest) for every item tree, the strict "
             "decoder accepts only canonical encodings, injectivity / prefix-freeness, minimal integers) for unbounded payloads; "
